@@ -89,13 +89,16 @@ def h_roundtrip(nr, nc, idk, mdk, zeros):
 
 def h_compress_equivalence(nr, nc):
     """compress on/off write the same store except for the `compression` argument (model stores compared)"""
-    if B().mode != 'sym':
-        raise Abort()
     t, a = make_table(nr, nc, md='both', zeros=1, type_='OTU table')
     t2 = a.twin()
     s1, s2 = new_store(), new_store()
-    t.to_hdf5(s1, 'g', compress=True, creation_date=DATE)
-    t2.to_hdf5(s2, 'g', compress=False, creation_date=DATE)
+    _, e1 = call(lambda: t.to_hdf5(s1, 'g', compress=True, creation_date=DATE))
+    _, e2 = call(lambda: t2.to_hdf5(s2, 'g', compress=False, creation_date=DATE))
+    if e1 is not None or e2 is not None:
+        fail('compress:write-raised', repr(e1 or e2)[:160])
+        return
+    if B().mode != 'sym':
+        return          # payload comparison works on the model store; replays only confirm the writes
     d1, d2 = H5M.dump(s1), H5M.dump(s2)
     if sorted(d1) != sorted(d2):
         fail('compress:different-objects', str(sorted(set(d1) ^ set(d2)))[:200])
